@@ -29,9 +29,15 @@ def hd_of(F, clo):
         raise AnalysisError("hard-decision closure unreadable: %s" % e)
 
 
+from ..decmodel import phase_methods  # noqa: E402
+
+
 def trace_decode(F, prefix):
     b = F.body(prefix + "decode")
-    t = SiteTracer(F, contracts=r"decoder::.*", no_inline=r"decoder::.*")
+    phases = phase_methods(F, prefix)
+    rx = r"decoder::check_llrs|decoder::hard_decisions|decoder::arithmetic::.*|" + "|".join(re.escape(p) for p in phases)
+    t = SiteTracer(F, contracts=rx, no_inline=rx)
+    t.phases = [p.rsplit("::", 1)[-1] for p in phases]
     env = {}
     for p, nm in zip(b.params, ("self", "llrs", "max_iterations")):
         t.bind(p, var(nm), env)
@@ -77,7 +83,7 @@ def run(ck, F, tier):
         b, t, ret = trace_decode(F, prefix)
         from ..decmodel import in_closure
         t.sites = [s for s in t.sites if not in_closure(s)]
-        calls = [s for s in t.sites if s["kind"] == "contract"]
+        calls = [s for s in t.sites if s["kind"] == "contract" and not s["detail"].startswith("decoder::arithmetic::")]
         names = [s["detail"].rsplit("::", 1)[-1] for s in calls]
         rets = [e for e in t.events if e.callee == "<return>"]
         H = var("self.h")
@@ -137,10 +143,10 @@ def run(ck, F, tier):
                     ck.inst("R2", key + ":count", its == num(0), site, "iterations = %r (required literal 0)" % (its,))
                     raw = buf == var("llrs")
                     nonpos = hd_ret is not None and hd_ret in (app("le", var("x"), num(0)), app("not", app("lt", num(0), var("x"))))
-                    first = calls and calls[0]["detail"] == "decoder::check_llrs" and "initialize" in names and \
-                        names.index("initialize") > names.index("hard_decisions")
+                    muts = [i for i, nm in enumerate(names) if nm in t.phases]
+                    first = calls and calls[0]["detail"] == "decoder::check_llrs" and muts and muts[0] > names.index("hard_decisions")
                     ck.inst("R3", key + ":raw-llrs", raw and nonpos and bool(first), site,
-                            "shortcut tests/returns the caller's llrs (%s) with hd(x) = %r (non-positive means 1: %s) before initialize (%s)" % (raw, hd_ret, nonpos, bool(first)))
+                            "shortcut tests/returns the caller's llrs (%s) with hd(x) = %r (non-positive means 1: %s) before any state-changing step (%s)" % (raw, hd_ret, nonpos, bool(first)))
                 else:
                     lp = loops[-1] if loops else None
                     okc = lp is not None and lp[0] == "range" and its == var(lp[1]) and lp[2] == num(1) and lp[3] == var("max_iterations") and lp[4] is True
@@ -167,13 +173,23 @@ def run(ck, F, tier):
                 "exits found: %s (required: Ok shortcut, Ok in loop, Err after the loop)" % sorted(seen_tags))
         # --- loop shape ---------------------------------------------------------------------
         in_loop = [s["detail"].rsplit("::", 1)[-1] for s in calls if s["loops"]]
-        want = {"flooding": ["process_check_nodes", "process_variable_nodes", "check_llrs", "hard_decisions"],
-                "horizontal_layered": ["process_check_nodes", "check_llrs", "hard_decisions"]}[sched]
-        brk = [e for e in t.events if e.callee in ("<break>", "<continue>") and e.loops]
-        ck.inst("R2", "%s:loop-body" % sched, in_loop == want and not brk, b.span,
-                "per iteration: %s; break/continue: %d (required %s, none)" % (in_loop, len(brk), want))
+        nph = 0
+        while nph < len(in_loop) and in_loop[nph] in t.phases:
+            nph += 1
+        shape_ok = nph >= 1 and in_loop[nph:] == ["check_llrs", "hard_decisions"]
+        # the loop may not be left early (break), and an iteration may only be cut short (continue) after its syndrome test failed
+        brk = [e for e in t.events if e.callee == "<break>" and e.loops]
+        cont_bad = []
+        for e in t.events:
+            if e.callee == "<continue>" and e.loops:
+                ga, pol = guard_check(e.guards)
+                if ga is None or pol is not False:
+                    cont_bad.append(e)
+        ck.inst("R2", "%s:loop-body" % sched, shape_ok and not brk and not cont_bad, b.span,
+                "per iteration: %s; break: %d, continue before the syndrome test: %d (required: the state-changing steps, then one check_llrs, then hard_decisions on success; no other way out)" % (
+                    in_loop, len(brk), len(cont_bad)))
         pre = [n for n, s in zip(names, calls) if not s["loops"]]
-        ck.inst("R2", "%s:prologue" % sched, pre[:3] == ["check_llrs", "hard_decisions", "initialize"], b.span,
+        ck.inst("R2", "%s:prologue" % sched, pre[:2] == ["check_llrs", "hard_decisions"] and len(pre) > 2 and pre[2] in t.phases, b.span,
                 "before the loop: %s" % pre[:4])
         # --- R5 -----------------------------------------------------------------------------
         asserts = [s for s in t.sites if s["kind"] == "assert"]
@@ -198,6 +214,8 @@ def run(ck, F, tier):
         ck.inst("R5", "%s:buffer-size" % sched, okn, nb.span, "new() sizes the LLR buffer(s) with h.num_cols() and stores h")
 
     # ---- R4 --------------------------------------------------------------------------------------
+    from ..trace import quantifier
+    from ..idioms import positional_map
     cb = F.body("decoder::check_llrs")
     tc = Tracer(F, "NONE", mode="int")
     envc = {}
@@ -205,52 +223,41 @@ def run(ck, F, tier):
         tc.bind(p, var(nm), envc)
     v = tc.eval(cb.value, envc)
     ok = False
-    why = "check_llrs is not of the form !any(rows, odd parity)"
-    a = single_atom(v) if isinstance(v, Poly) else None
-    if a and atom_fn(a) == "not":
-        inner = single_atom(atom_args(a)[0])
-        if inner and atom_fn(inner) in ("std::iter::Iterator::any",):
-            src = inner[2]
-            want_src = vkey(("iterdesc", ("range", num(0), app("sparse::SparseMatrix::num_rows", var("h")), False)))
-            cl = [c for c in walk(cb.value) if c.get("k") == "closure"]
-            r = tc.apply(("closure", cl[0], dict(envc)), [var("r")]) if cl else None
-            ra = single_atom(r) if isinstance(r, Poly) else None
-            odd = False
-            if ra and atom_fn(ra) in ("eq", "ne"):
-                x, y = atom_args(ra)
-                for m_, c_ in ((x, y), (y, x)):
-                    ma = single_atom(m_) if isinstance(m_, Poly) else None
-                    if ma and atom_fn(ma) == "mod" and atom_args(ma)[1] == num(2) and isinstance(c_, Poly):
-                        if (atom_fn(ra) == "eq" and c_ == num(1)) or (atom_fn(ra) == "ne" and c_ == num(0)):
-                            cnt = single_atom(atom_args(ma)[0])
-                            if cnt and atom_fn(cnt) == "std::iter::Iterator::count":
-                                d = cnt[2]
-                                # count(filter(elems(iter_row(h, r)), closure))
-                                okd = isinstance(d, tuple) and d[0] == "iterdesc" and d[1][0] == "filter" and \
-                                    d[1][1] == ("elems", ("P", app("sparse::SparseMatrix::iter_row", var("h"), var("r"))))
-                                if okd and len(cl) >= 2:
-                                    pv = tc.apply(("closure", cl[1], dict(envc)), [var("c")])
-                                    odd = pv == app("apply", var("hard_decision"), app("index", var("llrs"), var("c")))
-            want_struct = vkey(("struct", "Range", {"start": num(0), "end": app("sparse::SparseMatrix::num_rows", var("h"))}))
-            rows_ok = repr(src) in (repr(want_src), repr(want_struct))
-            ok = rows_ok and odd
-            why = "check_llrs = !any(r in 0..h.num_rows(): #{c in h.iter_row(r) : hd(llrs[c])} is odd)  [rows complete: %s, parity of hard decisions over iter_row: %s]" % (
-                rows_ok, odd)
+    why = "check_llrs is not a statement about every row r in 0..h.num_rows()"
+    q = quantifier(F, v, True, argname="r", tracer=tc) if isinstance(v, Poly) else None
+    if q is not None and q[0] == "forall":
+        quant, d, pred, ppol = q
+        rows_ok = d == ("range", ("P", num(0)), ("P", app("sparse::SparseMatrix::num_rows", var("h"))), False) or \
+            d == ("range", num(0), app("sparse::SparseMatrix::num_rows", var("h")), False)
+        # predicate: the number of neighbours c of row r with hd(llrs[c]) is even
+        odd = False
+        pa = single_atom(pred) if isinstance(pred, Poly) else None
+        if pa and atom_fn(pa) == "eq":
+            x, y = atom_args(pa)
+            for m_, c_ in ((x, y), (y, x)):
+                ma = single_atom(m_) if isinstance(m_, Poly) else None
+                if ma and atom_fn(ma) == "mod" and atom_args(ma)[1] == num(2) and isinstance(c_, Poly) and \
+                        ((c_ == num(0) and ppol) or (c_ == num(1) and not ppol)):
+                    cnt = single_atom(atom_args(ma)[0])
+                    if cnt and atom_fn(cnt) == "std::iter::Iterator::count":
+                        dd = cnt[2]
+                        IR = app("sparse::SparseMatrix::iter_row", var("h"), var("r"))
+                        okd = isinstance(dd, tuple) and dd[0] == "iterdesc" and dd[1][0] == "filter" and dd[1][1] in (("elems", ("P", IR)), ("elems", IR))
+                        if okd:
+                            fc = dd[1][2]
+                            node = F.closures.get(fc[1]) if isinstance(fc, tuple) and fc[0] == "closure" else None
+                            if node is not None:
+                                cenv = dict(tc.closure_envs.get(fc[1], {}))
+                                pv = Tracer(F, "NONE", mode="int").apply(("closure", node, cenv), [var("c")])
+                                odd = pv == app("apply", var("hard_decision"), app("index", var("llrs"), var("c")))
+        ok = rows_ok and odd
+        why = "check_llrs = for every r in 0..h.num_rows(): #{c in h.iter_row(r) : hd(llrs[c])} is even  [rows complete: %s, parity of hard decisions over iter_row: %s]" % (
+            rows_ok, odd)
     ck.inst("R4", "check_llrs", ok, cb.span, why)
     hb = F.body("decoder::hard_decisions")
-    th = Tracer(F, "NONE", mode="int")
-    envh = {}
-    for p, nm in zip(hb.params, ("llrs", "hard_decision")):
-        th.bind(p, var(nm), envh)
-    v = th.eval(hb.value, envh)
-    ok = False
-    a = single_atom(v) if isinstance(v, Poly) else None
-    if a and atom_fn(a) == "std::iter::Iterator::collect":
-        cols = [c for c in walk(hb.value) if c.get("k") == "mcall" and c["m"] == "collect"]
-        d = th.iter_desc(cols[0]["recv"], envh)
-        if d[0] == "map" and d[1] == ("elems", var("llrs")):
-            ok = th.apply(d[2], [var("x")]) == app("apply", var("hard_decision"), var("x"))
-    ck.inst("R4", "hard_decisions", ok, hb.span, "hard_decisions = llrs.iter().map(|x| hd(x) as u8).collect() (same order and length)")
+    fx = positional_map(F, hb, ("llrs", "hard_decision"), "llrs")
+    ok = fx is not None and fx == app("apply", var("hard_decision"), var("x"))
+    ck.inst("R4", "hard_decisions", ok, hb.span, "hard_decisions yields hd(llrs[i]) as u8 for every i in order (map+collect or push loop): element function %r" % (fx,))
 
     # ---- R6 -----------------------------------------------------------------------------------------
     n6 = 0
